@@ -335,6 +335,17 @@ def canon(t):
                 (x[1][0] == "global" and x[1][1] in _CONSUMERS) or (x[1][0] == "attr" and x[1][2] in ("join", "extend", "update"))):
             # a list comprehension consumed on the spot is as good as a generator expression
             return ("call", x[1], (("comp", "gen") + x[2][0][2:],) + x[2][1:], x[3])
+        if k == "call" and x[1][0] == "global" and len(x[2]) == 1 and not x[3]:
+            f, a = x[1][1], x[2][0]
+            # set([a, b]) / set((a, b))  ->  {a, b}
+            if f == "set" and a[0] in ("list", "tuple") and a[1]:
+                return ("set", a[1])
+            # sorted(list(X)) / set(list(X)) ... -> drop the inner copy;  list(sorted(X)) -> sorted(X)
+            if f in ("sorted", "set", "list", "tuple", "frozenset") and a[0] == "call" and a[1][0] == "global" \
+                    and a[1][1] in ("list", "tuple") and len(a[2]) == 1 and not a[3]:
+                return ("call", x[1], (a[2][0],), ())
+            if f in ("list", "tuple") and a[0] == "call" and a[1] == ("global", "sorted"):
+                return a
         if k == "lambda":
             return _keyfn_of_lambda(x[1])
         if k == "call" and x[1] in (("global", "operator.itemgetter"), ("global", "itemgetter")) and len(x[2]) == 1 and x[2][0][0] == "const":
